@@ -68,6 +68,33 @@ def overflow_grid(tier, seed):
     return out
 
 
+def builtin_grid(tier, seed):
+    """(digits, narrowest, exponent) of the elastic operand, (built-in type, exponent) of the other one, radix"""
+    fixed = [
+        # unsigned narrowest against a signed built-in (negative values): digits below / above the built-in's, all widths
+        (8, 'u32', -4, 'i32', -2, 2), (8, 'u8', -4, 'i32', -2, 2), (12, 'u16', -3, 'i16', 1, 2), (32, 'u32', -16, 'i32', -8, 2),
+        (40, 'u32', -8, 'i8', 0, 2), (20, 'u32', -4, 'i64', -10, 2), (5, 'u8', 0, 'i8', 0, 2), (33, 'u64', 2, 'i16', -5, 2),
+        (10, 'u16', -2, 'i32', -1, 10),
+        # the other three signedness mixes
+        (8, 'i32', -4, 'i32', -2, 2), (16, 'u16', -2, 'u32', 0, 2), (12, 'i16', -2, 'u16', -1, 2), (31, 'i32', 0, 'u64', 3, 2),
+        (7, 'i8', 1, 'u8', 0, 10),
+    ]
+    rnd = random.Random(seed * 4409 + 83)
+    out = list(fixed)
+    n = len(fixed) + (2 if tier == 'quick' else 30)
+    dig = lambda t: int(t[1:]) - (1 if t[0] == 'i' else 0)
+    while len(out) < n:
+        nl = rnd.choice([t for t in ECT if t[0] == 'u']) if rnd.random() < 0.7 else rnd.choice(list(ECT))
+        t = rnd.choice([t for t in ECT if t[0] == 'i']) if rnd.random() < 0.7 else rnd.choice(list(ECT))
+        d = rnd.choice([3, 6, 9, 12, 17, 24, 31, 32, 33, 40, 48])
+        rx = rnd.choice([2, 2, 2, 10])
+        el, er = (rnd.randint(-30, 30), rnd.randint(-30, 30)) if rx == 2 else (rnd.randint(-4, 3), rnd.randint(-4, 3))
+        c = (d, nl, el, t, er, rx)
+        if c not in out and d + dig(t) <= 100:
+            out.append(c)
+    return out
+
+
 def tus(tier, seed):
     res = C01.tus(tier, seed, section='C02')
     eg = elastic_grid(tier, seed)
@@ -78,6 +105,14 @@ def tus(tier, seed):
         body += '}\n'
         comp = 'clang++' if (tier == 'thorough' and (i // 3) % 4 == 3) else 'g++'
         res.append(dict(name='C02_elastic_%d' % (i // 3), src=body, compiler=comp))
+    bg = builtin_grid(tier, seed)
+    for i in range(0, len(bg), 2):
+        body = '#define SEC_C02E 1\n#include "%s"\nint main(){ install(); Rng rng(seed_from_env()+7500+%d);\n' % (WHDR, i)
+        for (dl, nl, el, t, er, rx) in bg[i:i + 2]:
+            body += '  ebgo<%d, %s, %d, %s, %d, %d>(rng);\n' % (dl, ECT[nl], el, ECT[t], er, rx)
+        body += '}\n'
+        comp = 'clang++' if (tier == 'thorough' and (i // 2) % 4 == 3) else 'g++'
+        res.append(dict(name='C02_elbuiltin_%d' % (i // 2), src=body, compiler=comp))
     og = overflow_grid(tier, seed)
     for i in range(0, len(og), 3):
         body = '#define SEC_C02O 1\n#define SEC_C02OQ 1\n#include "%s"\nint main(){ install(); Rng rng(seed_from_env()+8000+%d);\n' % (WHDR, i)
@@ -92,5 +127,7 @@ def tus(tier, seed):
 RULE = C01.RULE + ("; wrapped representations (C02w): per compiled (digits, narrowest, exponent) pair of elastic_integer representations and per "
                    "(overflow tag, representation, exponent) pair of overflow_integer representations, the value lattices of both operands "
                    "cross-multiplied (declared range ends, powers of two up to the top bit of the storage with neighbours, halves, thirds, "
-                   "seeded random); non-trivial = non-zero divisor, operands within the declared range / kept by the usual arithmetic "
+                   "seeded random); per compiled (digits, narrowest, exponent; built-in type, exponent) an elastic_integer representation against a "
+                   "scaled_integer over a built-in integer and against a plain integer, either operand order (the lattice of the built-in type with "
+                   "small values of both signs); non-trivial = non-zero divisor, operands within the declared range / kept by the usual arithmetic "
                    "conversions, not lowest / -1")
